@@ -112,6 +112,24 @@ Proof.
   - apply IH, Hnd'.
 Qed.
 
+(* a boolean check of key distinctness, for concrete overlays *)
+Fixpoint nodupb (l : list str) : bool :=
+  match l with [] => true | x :: r => negb (mem_str x r) && nodupb r end.
+
+Lemma mem_str_In x l : mem_str x l = false -> ~ In x l.
+Proof.
+  induction l as [|y r IH]; simpl; intros H; [tauto|].
+  apply Bool.orb_false_iff in H as [H1 H2]. apply str_eqb_neq in H1.
+  intros [Hx|Hx]; [congruence|apply IH; assumption].
+Qed.
+
+Lemma nodupb_sound l : nodupb l = true -> NoDup l.
+Proof.
+  induction l as [|x r IH]; simpl; intros H; [constructor|].
+  apply Bool.andb_true_iff in H as [H1 H2]. apply Bool.negb_true_iff in H1.
+  constructor; [apply mem_str_In, H1|apply IH, H2].
+Qed.
+
 (* ---------- actions ---------- *)
 
 Definition after (a : act) (cur : option content) : option content :=
@@ -413,6 +431,35 @@ Section DirThms.
     unfold materialize_dir. rewrite S1, Hlk. reflexivity.
   Qed.
 
+  (* the same, clause by clause *)
+  Theorem dir_cases_explicit o w ov ov' rep bl r ours b :
+    dir_run o w ov ov' rep bl -> dry_run o = false ->
+    lookup r (ov_files ov) = Some ours -> bl_files bl r = Some b ->
+    let mat := materialize_dir (ov_files ov') (w_up w) r in
+    (ours = b -> mat = w_up w r) /\
+    (ours <> b -> w_up w r = Some b -> mat = Some ours) /\
+    (ours <> b -> w_up w r = None -> mat = Some ours /\ In r (skipped rep)) /\
+    (forall u, ours <> b -> w_up w r = Some u -> u <> b -> ours = u -> mat = Some ours) /\
+    (forall u, ours <> b -> w_up w r = Some u -> u <> b -> ours <> u ->
+       exists m c, merge3 b ours u = Some (m, c) /\ mat = Some m /\ (c = true <-> In r (conflicts rep))).
+  Proof.
+    intros Hrun Hd Hlk Hb mat.
+    assert (Hmat : mat = expected merge3 b ours (w_up w r)) by (eapply dir_cases; eassumption).
+    destruct (rebase_dir_at _ _ _ _ _ _ _ _ Hrun Hlk) as (a & t & cf & Hf & Hl' & Hu & Hdl & Hs & Hc).
+    unfold dfile in Hf. rewrite Hb in Hf. unfold expected in Hmat.
+    split; [|split; [|split; [|split]]].
+    - intros ->. rewrite Hmat. destruct (w_up w r); rewrite str_eqb_refl; reflexivity.
+    - intros Hne Hup. rewrite Hmat, Hup, (proj2 (str_eqb_neq _ _) Hne), str_eqb_refl. reflexivity.
+    - intros Hne Hup. rewrite Hmat, Hup, (proj2 (str_eqb_neq _ _) Hne). split; [reflexivity|].
+      rewrite Hup in Hf. split_dir Hf; inversion Hf; subst; eqb_prop; subst; try congruence. apply Hs. reflexivity.
+    - intros u Hne Hup Hub ->. rewrite Hmat, Hup, (proj2 (str_eqb_neq _ _) Hub), str_eqb_refl. reflexivity.
+    - intros u Hne Hup Hub Hou. rewrite Hup in Hf, Hmat.
+      rewrite (proj2 (str_eqb_neq _ _) Hne), (proj2 (str_eqb_neq _ _) Hub), (proj2 (str_eqb_neq _ _) Hou) in Hmat.
+      split_dir Hf; inversion Hf; subst; eqb_prop; subst; try congruence;
+        match goal with Hm : merge3 _ _ _ = Some (?m, ?c) |- _ => exists m, c; rewrite Hm in Hmat end;
+        (split; [assumption|]; split; [exact Hmat|]); rewrite Hc; split; congruence.
+  Qed.
+
   (* C14_no_silent_loss, directory overlays *)
   Theorem dir_no_silent_loss o w ov ov' rep bl r ours b :
     dir_run o w ov ov' rep bl -> dry_run o = false ->
@@ -664,6 +711,12 @@ Proof.
   rewrite <- (rev_involutive x), E, rev_app_distr, rev_involutive. reflexivity.
 Qed.
 
+Lemma strip_prefix_app a : forall b, strip_prefix a (a ++ b) = Some b.
+Proof. induction a as [|x l IH]; intros b; simpl; [reflexivity|]. rewrite N.eqb_refl. apply IH. Qed.
+
+Lemma strip_suffix_app p r : strip_suffix p (r ++ p) = Some r.
+Proof. unfold strip_suffix. rewrite rev_app_distr, strip_prefix_app, rev_involutive. reflexivity. Qed.
+
 (* open every test of one rebase_patch_file result *)
 Ltac split_patch H :=
   unfold rebase_patch_file, do_write, do_delete in H;
@@ -869,17 +922,14 @@ Section PatchTop.
     | None => up rt
     end.
 
-  (* git's contract, as far as the statements below need it *)
-  Definition diff_law : Prop :=
-    forall r a b, match diff r a b with
-                  | Some p => utf8_valid p = true /\ patch_header_ok r (utf8_decode p) = true /\ git_apply p r a = Some b
-                  | None => a = b
-                  end.
-  Definition merge_trivial_law : Prop :=
-    forall b x, merge3 b b x = Some (x, false) /\ merge3 b x b = Some (x, false).
-  Definition merge_utf8_law : Prop :=
-    forall b x u m c, merge3 b x u = Some (m, c) -> utf8_valid b = true -> utf8_valid x = true -> utf8_valid u = true ->
-                      utf8_valid m = true.
+  (* git's contract, as far as the statements below need it, stated on the byte strings at hand:
+     [diff_ok r a b]: what `git diff --no-index` printed for (a, b) is a UTF-8 single-file patch whose
+     header names r and which `git apply` turns a into b with; no output means a = b *)
+  Definition diff_ok (r : rel) (a b : content) : Prop :=
+    match diff r a b with
+    | Some p => utf8_valid p = true /\ patch_header_ok r (utf8_decode p) = true /\ git_apply p r a = Some b
+    | None => a = b
+    end.
   Definition apply_utf8_law : Prop :=
     forall p r b c, git_apply p r b = Some c -> utf8_valid p = true -> utf8_valid b = true -> utf8_valid c = true.
 
@@ -929,36 +979,47 @@ Section PatchTop.
 
   (* C14_cases for patch overlays: under git's diff/apply contract the rebased patch, applied to the
      new upstream, yields the merge-file output *)
-  Theorem patch_cases o w ov ov' rep bl rt p b u :
-    diff_law ->
+  Theorem patch_cases o w ov ov' rep bl rt p b u ours m c :
     patch_run o w ov ov' rep bl -> dry_run o = false -> is_patch ov (rt ++ dot_patch) p ->
     bl_files bl rt = Some b -> w_up w rt = Some u ->
-    exists ours m c, git_apply p rt b = Some ours /\ merge3 b ours u = Some (m, c) /\
-      (c = false \/ diff rt u m <> None -> patch_result (ov_patches ov') (w_up w) rt = Some m) /\
-      (c = true -> In rt (conflicts rep) /\ lookup rt (ov_conflicts ov') = Some m) /\
-      (c = false -> ~ (lookup (rt ++ dot_patch) (ov_patches ov') = None /\ m <> u)).
+    git_apply p rt b = Some ours -> merge3 b ours u = Some (m, c) -> diff_ok rt u m ->
+    (c = false \/ diff rt u m <> None -> patch_result (ov_patches ov') (w_up w) rt = Some m) /\
+    (c = true -> In rt (conflicts rep) /\ lookup rt (ov_conflicts ov') = Some m) /\
+    (c = false -> lookup (rt ++ dot_patch) (ov_patches ov') = None -> m = u).
   Proof.
-    intros Hlaw Hrun Hd Hp Hb Hu.
-    destruct (patch_outcome _ _ _ _ _ _ _ _ Hrun Hd Hp) as [[_ [[Hs _]|(rt' & Hrt & Hn & _)]]|(rt' & b' & ours & Hrt & Hb' & _ & Hap & Hcase)].
-    - exfalso. unfold strip_suffix in Hs. rewrite rev_app_distr in Hs.
-      assert (Hx : strip_prefix (rev dot_patch) (rev dot_patch ++ rev rt) = Some (rev rt)).
-      { clear. induction (rev dot_patch) as [|a l IH]; simpl; [reflexivity|]. rewrite N.eqb_refl. exact IH. }
-      rewrite Hx in Hs. discriminate.
+    intros Hrun Hd Hp Hb Hu Hours Hmerge Hlaw. unfold diff_ok in Hlaw.
+    destruct (patch_outcome _ _ _ _ _ _ _ _ Hrun Hd Hp) as [[_ [[Hs _]|(rt' & Hrt & Hn & _)]]|(rt' & b' & ours' & Hrt & Hb' & _ & Hap & Hcase)].
+    - rewrite strip_suffix_app in Hs. discriminate.
     - apply app_inv_tail in Hrt. subst rt'. congruence.
     - apply app_inv_tail in Hrt. subst rt'. rewrite Hb in Hb'. inversion Hb'; subst b'.
-      destruct Hcase as [(Hnone & _)|(u' & m & Hu' & Hcase)]; [congruence|].
+      rewrite Hours in Hap. inversion Hap; subst ours'.
+      destruct Hcase as [(Hnone & _)|(u' & m' & Hu' & Hcase)]; [congruence|].
       rewrite Hu in Hu'. inversion Hu'; subst u'.
       unfold patch_result. rewrite Hu.
-      destruct Hcase as [(Hm & Hc & Hart & Hl)|(Hm & [(Hdf & Hl & _)|(p' & Hdf & Hl & _)])].
-      + exists ours, m, true. repeat split; auto; try discriminate.
+      destruct Hcase as [(Hm & Hc & Hart & Hl)|(Hm & [(Hdf & Hl & _)|(p' & Hdf & Hl & _)])];
+        rewrite Hmerge in Hm; inversion Hm; subst m' c.
+      + repeat split; auto; try discriminate.
         intros [Hx|Hx]; [discriminate|]. rewrite Hl.
-        specialize (Hlaw rt u m). destruct (diff rt u m) as [p'|]; [|congruence]. apply Hlaw.
-      + exists ours, m, false. repeat split; auto; try discriminate.
-        * intros _. rewrite Hl. specialize (Hlaw rt u m). rewrite Hdf in Hlaw. congruence.
-        * intros _ [_ Hne]. specialize (Hlaw rt u m). rewrite Hdf in Hlaw. congruence.
-      + exists ours, m, false. repeat split; auto; try discriminate.
-        * intros _. rewrite Hl. specialize (Hlaw rt u m). rewrite Hdf in Hlaw. apply Hlaw.
-        * intros _ [Hx _]. congruence.
+        destruct (diff rt u m) as [p'|]; [|congruence]. apply Hlaw.
+      + rewrite Hdf in Hlaw. repeat split; auto; try discriminate.
+        intros _. rewrite Hl. congruence.
+      + rewrite Hdf in Hlaw. repeat split; auto; try discriminate.
+        * intros _. rewrite Hl. apply Hlaw.
+        * intros _ Hx. congruence.
+  Qed.
+
+  (* ... so, with git's answers for the trivial merges, the first two clauses of the property *)
+  Corollary patch_cases_trivial o w ov ov' rep bl rt p b u ours :
+    patch_run o w ov ov' rep bl -> dry_run o = false -> is_patch ov (rt ++ dot_patch) p ->
+    bl_files bl rt = Some b -> w_up w rt = Some u -> git_apply p rt b = Some ours ->
+    (ours = b -> merge3 b b u = Some (u, false) -> diff_ok rt u u ->
+       patch_result (ov_patches ov') (w_up w) rt = Some u) /\
+    (u = b -> merge3 b ours b = Some (ours, false) -> diff_ok rt b ours ->
+       patch_result (ov_patches ov') (w_up w) rt = Some ours).
+  Proof.
+    intros Hrun Hd Hp Hb Hu Hap. split.
+    - intros -> Hm Hdk. destruct (patch_cases _ _ _ _ _ _ _ _ _ _ _ _ _ Hrun Hd Hp Hb Hu Hap Hm Hdk) as (H1 & _). auto.
+    - intros -> Hm Hdk. destruct (patch_cases _ _ _ _ _ _ _ _ _ _ _ _ _ Hrun Hd Hp Hb Hu Hap Hm Hdk) as (H1 & _). auto.
   Qed.
 
   (* ---- the dry run of a patch overlay ---- *)
@@ -1114,14 +1175,20 @@ Section PatchTop.
   Definition no_dangling_adoption (w : world) (ov : overlay) (bl : baseline) : Prop :=
     forall rt p, is_patch ov (rt ++ dot_patch) p -> bl_files bl rt = None -> w_up w rt = None.
 
+  (* the (target, upstream, merged) triples a clean patch rebase produces *)
+  Definition touched (w : world) (ov : overlay) (bl : baseline) (rt : rel) (u m : content) : Prop :=
+    exists p b ours, is_patch ov (rt ++ dot_patch) p /\ bl_files bl rt = Some b /\
+                     git_apply p rt b = Some ours /\ w_up w rt = Some u /\ merge3 b ours u = Some (m, false).
+
   Theorem patch_idempotent o w ov ov1 rep1 bl :
-    diff_law -> merge_trivial_law -> merge_utf8_law ->
+    (forall rt u m, touched w ov bl rt u m ->
+        diff_ok rt u m /\ merge3 u m u = Some (m, false) /\ utf8_valid m = true) ->
     patch_run o w ov ov1 rep1 bl -> dry_run o = false -> conflicts rep1 = [] ->
     (forall r, w_head w r = w_up w r) -> w_rev w <> None ->
     no_dangling_adoption w ov bl ->
     exists rep2, rebase o w ov1 = (ov1, inr rep2) /\ deleted rep2 = [] /\ conflicts rep2 = [].
   Proof.
-    intros Ldiff Lmerge Lutf Hrun Hd Hnc Hclean Hrev Hdang.
+    intros Hlaws Hrun Hd Hnc Hclean Hrev Hdang.
     destruct (rebase_patch_frame _ _ _ _ _ _ Hrun) as (F1 & _ & Hov1 & Hnf & _ & _).
     unfold refreshed in Hov1. rewrite Hd in Hov1.
     assert (Hsame : forall rp p1, In (rp, p1) (isort entry_leb (patch_files_of ov1)) ->
@@ -1175,27 +1242,26 @@ Section PatchTop.
         unfold pfile in Hg.
         assert (Hfacts : strip_suffix dot_patch (rt ++ dot_patch) = Some rt /\ valid_relpath rt = true /\
                          utf8_valid b = true /\ utf8_valid ours = true /\ utf8_valid u = true).
-        { split_patch Hg; inversion Hg; subst; eqb_prop;
-            repeat match goal with Hs : strip_suffix dot_patch _ = Some _ |- _ =>
-                     pose proof (strip_suffix_some _ _ _ Hs) as Hx; apply app_inv_tail in Hx; subst; clear Hs end;
-            try congruence;
-            repeat match goal with
-                   | H1 : ?x = Some _, H2 : ?x = Some _ |- _ => rewrite H1 in H2; inversion H2; subst; clear H2
-                   end; repeat split; try assumption;
-            match goal with |- strip_suffix _ _ = _ => idtac | _ => fail end;
-            unfold strip_suffix; rewrite rev_app_distr;
-            match goal with |- context[strip_prefix ?a (?a ++ ?b)] =>
-              assert (Hz : strip_prefix a (a ++ b) = Some b) by (clear; induction a as [|x l IH]; simpl; [reflexivity|]; rewrite N.eqb_refl; exact IH);
-              rewrite Hz end; rewrite rev_involutive; reflexivity. }
+        { pose proof (strip_suffix_app dot_patch rt) as Hss. unfold rebase_patch_file in Hg. rewrite Hss in Hg.
+          destruct (valid_relpath rt) eqn:Hv; simpl in Hg; [|discriminate].
+          rewrite Hb, Hbase, str_eqb_refl in Hg. simpl in Hg.
+          destruct (utf8_valid b) eqn:Hub; simpl in Hg; [|discriminate].
+          destruct (utf8_valid p); simpl in Hg; [|discriminate].
+          destruct (patch_header_ok rt (utf8_decode p)); simpl in Hg; [|discriminate].
+          rewrite Hap, Hup in Hg.
+          destruct (utf8_valid ours) eqn:Huo; simpl in Hg; [|discriminate].
+          destruct (utf8_valid u) eqn:Huu; simpl in Hg; [|discriminate].
+          repeat split; try reflexivity; exact Hss. }
         destruct Hfacts as (Hss & Hv & Hub & Huo & Huu).
         destruct Hdf as [(Hdf & Hl & _)|(p' & Hdf & Hl & _)]; [congruence|].
         rewrite Hl in Hlk1. inversion Hlk1; subst p1.
-        pose proof (Ldiff rt u m) as Hd1. rewrite Hdf in Hd1. destruct Hd1 as (Hup' & Hhd & Hap').
-        assert (Hum : utf8_valid m = true) by (eapply Lutf; eassumption).
+        destruct (Hlaws rt u m) as (Hd1 & Hm2 & Hum).
+        { exists p, b, ours. auto. }
+        unfold diff_ok in Hd1. rewrite Hdf in Hd1. destruct Hd1 as (Hup' & Hhd & Hap').
         exists (AWrite p'), TUpdated, rt.
         unfold rebase_patch_file. rewrite Hss, Hv, Hup, Hclean, Hup, str_eqb_refl. simpl.
-        rewrite Huu, Hup', Hhd. simpl. rewrite Hap', Huu, Hum. simpl.
-        destruct (Lmerge u m) as [_ Hm2]. rewrite Hm2, Hdf. unfold do_write. rewrite Hd.
+        rewrite Huu, Hup', Hhd. simpl. rewrite Hap', Hum. simpl.
+        rewrite Hm2, Hdf. unfold do_write. rewrite Hd.
         repeat split; auto; discriminate. }
     destruct (patch_loop_same o (w_up w) (w_head w) (w_up w) _ (ov_patches ov1) (ov_conflicts ov1) empty_report Hsame)
       as (rep' & Hloop & H1 & H2).
@@ -1205,5 +1271,55 @@ Section PatchTop.
     destruct (w_rev w) eqn:Hw; [|congruence].
     unfold patch_files_of in *. simpl in *. rewrite Hloop. unfold refreshed. rewrite Hd. simpl. rewrite Hw.
     split; [reflexivity|]. rewrite H1, H2. simpl. split; reflexivity.
+  Qed.
+
+  (* ---- materialisation of a patch overlay (compose_module_tree with one patch layer) ---- *)
+  Lemma compose_patch_loop_spec : forall todo out res,
+    NoDup (keys todo) -> compose_patch_loop git_apply todo out = inr res ->
+    forall rt, res rt = match lookup (rt ++ dot_patch) todo with
+                        | Some p => match out rt with Some target => git_apply p rt target | None => None end
+                        | None => out rt
+                        end.
+  Proof.
+    induction todo as [|[rp p] rest IH]; intros out res Hnd H rt; simpl in H.
+    - inversion H. reflexivity.
+    - inversion Hnd as [|k l Hnotin Hnd']; subst. simpl.
+      destruct (strip_suffix dot_patch rp) as [rt0|] eqn:Hs.
+      + apply strip_suffix_some in Hs. subst rp.
+        destruct (valid_relpath rt0); simpl in H; [|discriminate].
+        destruct (out rt0) as [target|] eqn:Ho; [|discriminate].
+        destruct (utf8_valid target); simpl in H; [|discriminate].
+        destruct (utf8_valid p); simpl in H; [|discriminate].
+        destruct (patch_header_ok rt0 (utf8_decode p)); simpl in H; [|discriminate].
+        destruct (git_apply p rt0 target) as [c|] eqn:Ha; [|discriminate].
+        rewrite (IH _ _ Hnd' H rt).
+        destruct (str_eqb (rt0 ++ dot_patch) (rt ++ dot_patch)) eqn:E.
+        * apply str_eqb_eq in E. apply app_inv_tail in E. subst rt0.
+          assert (Hl : lookup (rt ++ dot_patch) rest = None) by (apply lookup_None; exact Hnotin).
+          rewrite Hl, Ho, Ha. unfold set_out. rewrite str_eqb_refl. reflexivity.
+        * apply str_eqb_neq in E. unfold set_out.
+          destruct (str_eqb rt0 rt) eqn:E2; [apply str_eqb_eq in E2; subst; congruence|]. reflexivity.
+      + rewrite (IH _ _ Hnd' H rt).
+        destruct (str_eqb rp (rt ++ dot_patch)) eqn:E; [|reflexivity].
+        apply str_eqb_eq in E. subst rp. rewrite strip_suffix_app in Hs. discriminate.
+  Qed.
+
+  Theorem patch_materialize ov up out rt :
+    ov_exists ov = true -> ov_kind ov = KPatch -> NoDup (keys (ov_patches ov)) ->
+    materialize git_apply ov up = inr out ->
+    has_patch_ext (rt ++ dot_patch) = true \/ lookup (rt ++ dot_patch) (ov_patches ov) = None ->
+    out rt = patch_result (ov_patches ov) up rt.
+  Proof.
+    intros Hex Hk Hnd H Hext. unfold materialize in H. rewrite Hk, Hex in H. simpl in H.
+    destruct (negb (nilb (ov_files ov)) && negb (nilb (patch_files_of ov))); [discriminate|].
+    destruct (negb (nilb (ov_files ov))); [discriminate|].
+    assert (Hndp : NoDup (keys (patch_files_of ov))) by (apply NoDup_filter_keys, Hnd).
+    assert (Hperm : Permutation (patch_files_of ov) (isort entry_leb (patch_files_of ov))) by apply isort_perm.
+    assert (Hnd2 : NoDup (keys (isort entry_leb (patch_files_of ov)))).
+    { eapply Permutation_NoDup; [apply Permutation_map, Hperm|exact Hndp]. }
+    rewrite (compose_patch_loop_spec _ _ _ Hnd2 H rt).
+    rewrite <- (lookup_perm _ _ _ Hndp Hperm). unfold patch_files_of. rewrite lookup_filter_key.
+    unfold patch_result.
+    destruct Hext as [-> | Hn]; [reflexivity|]. rewrite Hn. destruct (has_patch_ext (rt ++ dot_patch)); reflexivity.
   Qed.
 End PatchTop.
